@@ -6,6 +6,7 @@ export GOFLAGS=-mod=mod GOPROXY=off GOSUMDB=off GOTOOLCHAIN=local
 cd "$HERE/harness" || exit 2
 mkdir -p "$HERE/.bin" "$HERE/evidence" "$HERE/replays"
 go build -o "$HERE/.bin/vcheck" ./cmd/vcheck || exit 2
+VERIF_DIR="$HERE" "$HERE/.bin/vcheck" warm || exit 2   # base build cache (std, runtime library, fixture packages)
 T="$(mktemp -d)"; trap 'rm -rf "$T"' EXIT
 go test -c -tags verif -o "$T/checks.test" ./checks || exit 2
 (cd "${VERIF_REPO:-/repo}" && go build -o "$T/gontainer" .) || exit 2
